@@ -158,6 +158,36 @@ func vCheckMaps(tag string, mem Memory, ref *vRefMem, addr uint64, w expr.Width)
 	sym.Assert(vMapNormal(blocks), tag+": Blocks is in normal form")
 }
 
+// vQuery picks the address and width of the final query (or a fixed one when
+// only the wide query of vCheckWide is wanted).
+func vQuery() (uint64, expr.Width) {
+	if sym.Param("narrowquery", 1) == 0 && sym.Param("layout", 1) == 1 {
+		if !vBaseSet {
+			vBase, vBaseSet = sym.SmallBase("base"), true
+		}
+		return vBase, 1
+	}
+	addr := vAddr("raddr")
+	w := vWidth()
+	vNoWrap(addr, int(w))
+	return addr, w
+}
+
+// vCheckWide repeats the read / Missing / Blocks checks with a range as wide
+// as the whole address window (layout 1 only), so that a query can begin in
+// one block, span holes and end in another block.
+func vCheckWide(tag string, mem Memory, ref *vRefMem, env *irsem.MapEnv) {
+	if sym.Param("layout", 1) != 1 || sym.Param("widequery", 0) == 0 {
+		return
+	}
+	addr := vBase + uint64(sym.Choose(2))
+	w := expr.Width(sym.Param("window", 8) + 1 - sym.Choose(2))
+	vCheckRead(tag+"-wide", mem, ref, env, addr, w)
+	if sym.Param("maps", 1) == 1 {
+		vCheckMaps(tag+"-wide", mem, ref, addr, w)
+	}
+}
+
 // ---- C14
 
 func VerifC14Sparse() {
@@ -182,13 +212,14 @@ func VerifC14Sparse() {
 			}
 		}
 	}
-	addr := vAddr("raddr")
-	w := vWidth()
-	vNoWrap(addr, int(w))
-	vCheckRead("sparse", m, ref, env, addr, w)
-	if sym.Param("maps", 1) == 1 {
-		vCheckMaps("sparse", m, ref, addr, w)
+	addr, w := vQuery()
+	if sym.Param("narrowquery", 1) == 1 {
+		vCheckRead("sparse", m, ref, env, addr, w)
+		if sym.Param("maps", 1) == 1 {
+			vCheckMaps("sparse", m, ref, addr, w)
+		}
 	}
+	vCheckWide("sparse", m, ref, env)
 	if haveEarly {
 		sym.Assert(irsem.Eval(early, env).Eq(earlyVal), "sparse: a value returned earlier is not altered by later operations")
 	}
@@ -317,13 +348,14 @@ func VerifC15Bytes() {
 		sym.NoPanic(func() { m.Store(model.Addr(addr), ex, w) })
 		ref.write(addr, int(w), irsem.Adjust(val, w))
 	}
-	addr := vAddr("raddr")
-	w := vWidth()
-	vNoWrap(addr, int(w))
-	vCheckRead("bytes", m, ref, env, addr, w)
-	if sym.Param("maps", 1) == 1 {
-		vCheckMaps("bytes", m, ref, addr, w)
+	addr, w := vQuery()
+	if sym.Param("narrowquery", 1) == 1 {
+		vCheckRead("bytes", m, ref, env, addr, w)
+		if sym.Param("maps", 1) == 1 {
+			vCheckMaps("bytes", m, ref, addr, w)
+		}
 	}
+	vCheckWide("bytes", m, ref, env)
 	for i, b := range blocks {
 		sym.Assert(vSameBytes(b.(vBlock).bytes, copies[i]), "bytes: the caller's byte slices are never modified")
 	}
@@ -366,13 +398,14 @@ func VerifC16Overlay() {
 		sym.NoPanic(func() { o.Store(model.Addr(addr), ex, w) })
 		ref.write(addr, int(w), irsem.Adjust(val, w))
 	}
-	addr := vAddr("raddr")
-	w := vWidth()
-	vNoWrap(addr, int(w))
-	vCheckRead("overlay", o, ref, env, addr, w)
-	if sym.Param("maps", 1) == 1 {
-		vCheckMaps("overlay", o, ref, addr, w)
+	addr, w := vQuery()
+	if sym.Param("narrowquery", 1) == 1 {
+		vCheckRead("overlay", o, ref, env, addr, w)
+		if sym.Param("maps", 1) == 1 {
+			vCheckMaps("overlay", o, ref, addr, w)
+		}
 	}
+	vCheckWide("overlay", o, ref, env)
 	// the base is never modified
 	vCheckRead("overlay-base", base, baseRef, env, addr, w)
 	for i, b := range blocks {
